@@ -30,6 +30,23 @@ CLAIMED = {
             "who-may-mutate facts that hold for histories of any length and every crash point because they quantify "
             "over all call sites and paths; retransmission byte-identity and counting are not computed.",
             "DESIGN.md §4 C02"),
+    "C01": ("must-dataflow (DRAINED) + table extraction/value-set folding of fixed-header flags vs MQTT 5 Table 2-2 + "
+            "dominance/wiring on mir_built",
+            "Static analysis, structural clauses only: every direct transport write of a public operation is preceded by a "
+            "successful drain (else a packet could start inside a partially written one); type nibble, flag value sets, "
+            "their composition in finalize and the in-place DUP patch are compared cell by cell with MQTT 5 for every "
+            "packet kind the client can send or retain; replay restarts all three queues at byte 0; CONNECT is the first "
+            "I/O and nothing follows a DISCONNECT without the latch; remaining-length and slice wiring; fresh/in-progress "
+            "decision tables. Three genuine defects are listed as known findings. The byte stream itself is not produced "
+            "or parsed: these are necessary conditions that hold for every schedule because they quantify over all paths.",
+            "DESIGN.md §4 C01"),
+    "C03": ("path-sensitive must-pass (constant-propagated path enumeration) + who-may-mutate census + wiring on mir_built",
+            "Static analysis, structural clauses only: every feasible path to the PUBREL enqueue passes the success edge of "
+            "the retained-removal and of the PUBREC reason check and carries the PUBREC's identifier; release entries are "
+            "removed only by the PUBCOMP arm with that identifier; no order-breaking operation on the release queue; "
+            "PUBREL is serialised from the step's identifier and release entries are re-armed for replay. Interleavings of "
+            "several exchanges are covered through these per-entry invariants, not enumerated.",
+            "DESIGN.md §4 C03"),
 }
 
 NOT_APPLICABLE = {
